@@ -79,23 +79,18 @@ func (v *Vue) evalTemplate(ctx VueContext, nodes []*html.Node, componentData map
 			}
 		}
 
-		// Evaluate v-html if attribute is provided
-		if err := v.evalVHtml(ctx, nodes[0]); err != nil {
-			return nil, err
-		}
-
-		// Check if v-html was evaluated (internal attribute set)
-		hasVHtml := false
-		for _, attr := range node.Attr {
-			if attr.Key == "data-v-html-content" {
-				hasVHtml = true
-				break
+		// Evaluate v-html if attribute is provided, on a private copy: the tag itself belongs to the
+		// parsed (cached) template and may be evaluated again, at every use of supplied slot content
+		if helpers.HasAttr(node, "v-html") {
+			htmlNode := helpers.DeepCloneNode(node)
+			if err := v.evalVHtml(ctx, htmlNode); err != nil {
+				return nil, err
 			}
-		}
 
-		// If v-html was evaluated, return the template node for rendering to output its content
-		if hasVHtml {
-			return nodes, nil
+			// If v-html was evaluated (internal attribute set), return the copy for rendering to output its content
+			if helpers.HasAttr(htmlNode, "data-v-html-content") {
+				return []*html.Node{htmlNode}, nil
+			}
 		}
 
 		// Evaluate attributes and set them in current scope
